@@ -350,6 +350,8 @@ def stmt_text(st) -> str:
         return '; just a comment'
     if k == 'asm':
         return '    ' + st[1] + (' ' + ', '.join(o[0] for o in st[2]) if st[2] else '')
+    if k == 'other_text':
+        return '    ' + st[1]
     raise ValueError(k)
 
 
